@@ -21,7 +21,7 @@ META = {
             "(receives and sends of the tree pair up at every size), treeReduce_order / treeReduce_append_order (exact merge order for an associative "
             "merge), treeReduce_eq_fold / treeReduceL_eq_fold (associative-commutative merge => every rank gets the sequential fold, all n >= 1), "
             "bcastSer_spec / mpiBcastSer_spec (serialised bcast from every root), isSame_spec, prefix_wrapper_spec / prefix_wrapper_rank0, "
-            "mpiTypeof_faithful, reductions_after_barrier.  Tied to the code by running every collective on the real headers under simmpi for "
+            "mpiTypeof_faithful, reductions_after_barrier, reductions_read_after_barrier.  Tied to the code by running every collective on the real headers under simmpi for "
             "every communicator size of the box, value types bool/(u)int8..64/double/string/vector<pair<string,int>>, every bcast root, with "
             "commutative and non-commutative merges, and diffing against the Lean definitions run natively.",
     "note": "PARTIAL BY NATURE: all_reduce_sum/min/max, sum/min/max/logical_and/logical_or, prefix_sum and POD bcast delegate to "
@@ -29,7 +29,11 @@ META = {
             "(mpiAllreduce/mpiExscan/mpiBcast; MPI_Exscan leaves rank 0's receive buffer untouched) and the theorems named *_wrapper_* only show "
             "that YGM's use of them (operator, datatype via mpi_typeof, `T to_return{0}`, barrier first) yields the fold.  The serialiser is a "
             "parameter (round trip = C06).  'Completes all outstanding asyncs' is proved only structurally (barrier precedes the reduction; "
-            "quiescence is C02) and otherwise tested.  Floating point: besides integer-valued doubles (exact under any bracketing) float and double are "
+            "quiescence is C02) and otherwise tested.  WHICH value of an argument variable is folded when asyncs that update it are outstanding "
+            "(Coll.inputRead, theorems reductions_read_after_barrier / by_value_reductions_read_at_call, run mode asyncval): sum/min/max/prefix_sum take "
+            "`const T&` and hand it to MPI after barrier() => the FINAL values (all handlers applied) are folded; logical_and/logical_or take `bool` BY "
+            "VALUE and is_same reads its argument before logical_and's barrier => for those three the property speaks only about the value held at the "
+            "call, and the oracle folds the at-call values recorded by each rank (this mirrors the unchanged code exactly).  Floating point: besides integer-valued doubles (exact under any bracketing) float and double are "
             "run with rounding-sensitive inputs (1 / 1e16 / 0.1 mixes, large-after-small, values near FLT_MAX/DBL_MAX whose partial sums overflow, one "
             "infinity; no NaN, no -0.0 inputs) and compared bit for bit.  ASSUMED there: the MPI reduction/scan of IEEE values is the LEFT FOLD IN RANK "
             "ORDER with round-to-nearest IEEE arithmetic in the value's own format (what mpiAllreduce/mpiExscan state and simmpi does; the MPI standard "
@@ -46,7 +50,9 @@ RULE = ("for every communicator size R in the tier's box (as 1xR, composite size
         "from (seed, round, R) and call each collective once per value type; a case = (layout, round, test); non-trivial = R >= 2; "
         "float and double additionally with 3 rounding-sensitive input vectors per round (mixed magnitudes, near-overflow, one infinity, random "
         "exponents, large-after-small) compared bit for bit; bcast from every root for int64/string/vector; is_same with all-equal / one-rank-differs / random inputs; async-completion: "
-        "1..4 chains of 0..3 hops per rank, then one free function without a barrier")
+        "1..4 chains of 0..3 hops per rank, then one free function without a barrier; asyncval: the same chains with handlers that update a per-rank "
+        "variable, the free function is called on that variable (buffer default / 0 / 1 KB), result compared with the fold of the final values "
+        "(sum/min/max/prefix_sum) resp. of the values at the call (logical_and/logical_or/is_same)")
 
 WIDTH = {"i8": (8, True), "i16": (16, True), "i32": (32, True), "i64": (64, True),
          "u8": (8, False), "u16": (16, False), "u32": (32, False), "u64": (64, False), "f64": (0, True), "bool": (1, False)}
@@ -267,6 +273,15 @@ def make_jobs(tier, seed):
             jobs.append({"mode": "async", "nodes": N, "ppn": P, "seed": seed * 131 + k, "rounds": arounds,
                          "nfn": 7 if buf == "default" else 6,
                          "sim_seed": seed * 811 + i * 7 + k, "policy": POLICIES[(i + k + 1) % len(POLICIES)], "env": env})
+    for i, (N, P) in enumerate(layouts(tier)):
+        for k, buf in enumerate(["default", "0", "1"]):
+            for q in range(1 if tier == "quick" else 3):
+                env = {"YGM_COMM_ROUTING": ROUTINGS[(i + k + q + seed + 2) % 3]}
+                if buf != "default":
+                    env["YGM_COMM_BUFFER_SIZE_KB"] = buf
+                jobs.append({"mode": "asyncval", "nodes": N, "ppn": P, "seed": seed * 173 + k + 10 * q, "rounds": arounds,
+                             "nfn": 7 if buf == "default" else 6,
+                             "sim_seed": seed * 613 + i * 11 + k + 5 * q, "policy": POLICIES[(i + k + q + 2) % len(POLICIES)], "env": env})
     for (N, P) in ([(1, 1), (1, 2), (1, 5), (2, 3)] if tier == "quick" else [(1, 1), (1, 2), (1, 3), (1, 5), (2, 3), (1, 8), (3, 4), (1, 17)]):
         jobs.append({"mode": "prims", "nodes": N, "ppn": P, "seed": seed, "rounds": 1, "nfn": 7, "sim_seed": seed, "policy": "uniform",
                      "env": {"YGM_COMM_ROUTING": "NONE"}})
@@ -276,9 +291,9 @@ def make_jobs(tier, seed):
 
 def run_job(binary, job):
     args = [job["mode"]]
-    if job["mode"] in ("vals", "async"):
+    if job["mode"] in ("vals", "async", "asyncval"):
         args += [job["seed"], job["rounds"]]
-    if job["mode"] == "async":
+    if job["mode"] in ("async", "asyncval"):
         args += [job["nfn"]]
     return C.run_sim(binary, args, nodes=job["nodes"], ppn=job["ppn"], env=job["env"], sim_seed=job["sim_seed"],
                      policy=job["policy"], want_log=(job["mode"] == "prims"), timeout=600)
@@ -422,6 +437,88 @@ def eval_async(job, sr, res, use_model=True):
     return done
 
 
+BY_REF_AFTER_BARRIER = ("sum", "min", "max", "prefix_sum")      # const T& handed to MPI after c.barrier(): fold of the FINAL values
+# logical_and / logical_or take bool BY VALUE, is_same reads its argument before logical_and's barrier: fold of the values AT THE CALL
+
+
+def free_fold(fn, xs):
+    n = len(xs)
+    if fn == "sum":
+        return [sum(xs)] * n
+    if fn == "min":
+        return [min(xs)] * n
+    if fn == "max":
+        return [max(xs)] * n
+    if fn == "prefix_sum":
+        return [sum(xs[:r]) for r in range(n)]
+    if fn == "logical_and":
+        return [1 if all(xs) else 0] * n
+    if fn == "logical_or":
+        return [1 if any(xs) else 0] * n
+    return [1 if all(x == xs[0] for x in xs) else 0] * n       # is_same
+
+
+def eval_asyncval(job, sr, res, use_model=True):
+    R = job["nodes"] * job["ppn"]
+    base = job_id(job)
+    if sr.verdict != "ok":
+        res.oracle_failures.append({"what": f"free-function reduction over an async-updated variable did not return: {sr.verdict}",
+                                    "signature": f"coll-asyncval-run {sr.verdict} {sr.blocked}"[:200],
+                                    "case": dict(base, verdict=sr.verdict, blocked=sr.blocked, stderr=sr.stderr[-400:])})
+    rows = {}
+    for rank in range(R):
+        for l in sr.outs.get(rank, []):
+            w = l.split(" ")
+            if w[0] == "v":
+                rows.setdefault((int(w[1]), w[2]), {})[rank] = [int(x) for x in w[3:8]]
+    keys = [k for k in sorted(rows) if len(rows[k]) == R]
+    mlines = []
+    for (rnd, fn) in keys:
+        t = rows[(rnd, fn)]
+        boolfn = fn in ("logical_and", "logical_or")
+        at = [t[r][1] if boolfn else t[r][0] for r in range(R)]
+        fin = [t[r][1] if boolfn else t[r][4] for r in range(R)]
+        mlines.append(f"freered {fn} {' '.join(map(str, at))} | {' '.join(map(str, fin))}")
+    mout = C.model("coll", mlines) if (use_model and mlines) else [None] * len(keys)
+    done = 0
+    for (rnd, fn), mo in zip(keys, mout):
+        t = rows[(rnd, fn)]
+        done += 1
+        at = [t[r][0] for r in range(R)]
+        atf = [t[r][1] for r in range(R)]
+        real = [t[r][2] for r in range(R)]
+        after = [t[r][3] for r in range(R)]
+        fin = [t[r][4] for r in range(R)]
+        case = dict(base, round=rnd, fn=fn, var_at_call=at, flag_at_call=atf, result=real, var_after_return=after, var_final_expected=fin)
+        if after != fin:
+            bad = [r for r in range(R) if after[r] != fin[r]]
+            res.oracle_failures.append({"what": f"ygm::{fn} returned on ranks {bad[:6]} of {R} before all async updates of the variable were applied",
+                                        "signature": f"free-reduction-before-asyncs-complete {fn}", "case": case})
+        if fn in BY_REF_AFTER_BARRIER:
+            exp, other = free_fold(fn, fin), free_fold(fn, at)
+        elif fn in ("logical_and", "logical_or"):
+            exp, other = free_fold(fn, atf), None
+        else:
+            exp, other = free_fold(fn, at), None
+        if real != exp:
+            if other is not None and real == other and at != fin:
+                res.oracle_failures.append({"what": f"ygm::{fn}(variable) on {R} ranks returned {real[:4]}…: the fold of the values the variables held AT THE CALL; "
+                                                    f"the fold of the final values (all outstanding asyncs applied) is {exp[:4]}…",
+                                            "signature": f"free-reduction-read-input-before-barrier {fn}", "case": dict(case, expected=exp)})
+            else:
+                res.oracle_failures.append({"what": f"ygm::{fn}(variable) on {R} ranks returned {real[:4]}…, expected {exp[:4]}…",
+                                            "signature": f"coll-value {fn} R={R}", "case": dict(case, expected=exp)})
+        if mo is not None and mo.split(" ") != [str(x) for x in real]:
+            res.corr_failures.append({"relation": "Coll.contributed / inputRead: which value of the argument variable enters the fold",
+                                      "what": f"{fn} on {R} ranks: model {mo.split(' ')[:4]} real {real[:4]}", "case": dict(case, model=mo.split(" "))})
+        if R >= 2:
+            res.distinct.add(("asyncval", job["nodes"], job["ppn"], job["seed"], job["env"].get("YGM_COMM_BUFFER_SIZE_KB", "default"), rnd, fn))
+        res.count("asyncval-" + fn + ("-moved" if at != fin else "-still"))
+        if at != fin and fn in BY_REF_AFTER_BARRIER and free_fold(fn, at) != free_fold(fn, fin):
+            res.count("asyncval-discriminating")
+    return done
+
+
 KIND = {"1": "mpi_barrier", "2": "allreduce", "4": "exscan", "5": "bcast"}
 
 
@@ -519,6 +616,8 @@ def evaluate(job, sr, res, use_model):
         return eval_vals(job, sr, res, use_model)
     if m == "async":
         return eval_async(job, sr, res, use_model)
+    if m == "asyncval":
+        return eval_asyncval(job, sr, res, use_model)
     if m == "prims":
         return eval_prims(job, sr, res, use_model)
     return eval_types(job, sr, res, use_model)
@@ -564,14 +663,16 @@ def run(tier, seed, model_ok=True):
         seen = set()
         for f in res.corr_failures:
             c = f.get("case") or {}
-            if c.get("mode") in ("vals", "prims", "types") and (c.get("nodes"), c.get("ppn")) not in seen and len(seen) < 4:
+            if c.get("mode") in ("vals", "prims", "types", "asyncval") and (c.get("nodes"), c.get("ppn")) not in seen and len(seen) < 4:
                 seen.add((c.get("nodes"), c.get("ppn")))
-                N, P = (c["nodes"], c["ppn"]) if c.get("mode") == "vals" else (1, 5)
+                N, P = (c["nodes"], c["ppn"]) if c.get("mode") in ("vals", "asyncval") else (1, 5)
                 for k in range(3):
                     extra.append({"mode": "vals", "nodes": N, "ppn": P, "seed": seed * 7001 + 17 * k + 3, "rounds": 6, "nfn": 7,
                                   "sim_seed": seed + 100 + k, "policy": POLICIES[k], "env": {"YGM_COMM_ROUTING": "NONE"}})
                     extra.append({"mode": "async", "nodes": N, "ppn": P, "seed": seed * 7001 + 17 * k + 5, "rounds": 14, "nfn": 7,
                                   "sim_seed": seed + 200 + k, "policy": POLICIES[k], "env": {"YGM_COMM_ROUTING": "NONE"}})
+                    extra.append({"mode": "asyncval", "nodes": N, "ppn": P, "seed": seed * 7001 + 17 * k + 7, "rounds": 14, "nfn": 7,
+                                  "sim_seed": seed + 300 + k, "policy": POLICIES[k], "env": {"YGM_COMM_ROUTING": "NONE"}})
         tmp = C.Result()
         for job, sr in C.pmap(lambda j: (j, run_job(binary, j)), extra):
             res.evaluations += evaluate(job, sr, tmp, False)
@@ -600,8 +701,9 @@ def replay(data):
     res = C.Result()
     evaluate(job, sr, res, True)
     print("verdict", sr.verdict, sr.blocked)
-    want = case.get("test")
-    hits = [f for f in res.oracle_failures + res.corr_failures if want is None or (f.get("case") or {}).get("test") in (None, want)]
+    want = case.get("test") or case.get("fn")
+    hits = [f for f in res.oracle_failures + res.corr_failures
+            if want is None or ((f.get("case") or {}).get("test") or (f.get("case") or {}).get("fn")) in (None, want)]
     for f in hits[:5]:
         print(f.get("signature") or f.get("relation"), "|", f["what"])
     return not hits
